@@ -3,7 +3,7 @@ import os
 import subprocess
 
 VERIF = os.path.dirname(os.path.dirname(os.path.abspath(__file__)))
-DRIVER = os.path.join(VERIF, 'lean', '.lake', 'build', 'bin', 'driver')
+DRIVER = os.environ.get('VERIF_DRIVER') or os.path.join(VERIF, 'lean', '.lake', 'build', 'bin', 'driver')
 
 
 class DriverError(Exception):
